@@ -146,7 +146,7 @@ def _exercise_decoy(path):
             _data = open(path, 'rb').read()
 
             def download_blob(self, offset=None, length=None):
-                d_ = self._data[offset:offset + length]
+                d_ = self._data[offset:] if length is None else self._data[offset:offset + length]
                 return types.SimpleNamespace(readall=lambda: d_)
 
             def close(self):
@@ -361,7 +361,7 @@ class CountingBlob:
                 with blob._lock:
                     blob.log.append((offset, length))
                     blob.all.append((offset, length))
-                return blob._data[offset:offset + length]
+                return blob._data[offset:] if length is None else blob._data[offset:offset + length]
         return _D()
 
     def close(self):
